@@ -1,7 +1,7 @@
 SPECIFICATION Spec
 CONSTANTS
 NReady = 1 NGet = 1 NCons = 1 MaxObs = 0 GetFix = TRUE Variant = "readyEarly" Dir = TRUE
-Scripts <- OrderScripts StepSets <- NoSteps Horizon = 0
+Scripts <- OrderScripts StepSets <- NoSteps Horizon = 0 MaxTicks = 400
 INVARIANT NotBad
 
 CHECK_DEADLOCK FALSE
